@@ -31,15 +31,19 @@ from operon_ai.providers import LLMResponse, ToolCall
 ID = "C18"
 LEVEL = "exploration"
 ENGINE = "seq"
-RUNS = {"quick": 200_000, "thorough": 10_000_000}
-RULE = ("runs 0..10304 enumerate, per loop, every limit value 0..4 (swarm: both limits, 25 pairs) x every peer script of "
+RUNS = {"quick": 150_000, "thorough": 10_000_000}
+RULE = ("runs 0..14174 enumerate, per loop, every limit value 0..4 (swarm: both limits, 25 pairs) x every peer script of "
         "length <=3 over the loop's alphabet with the last symbol repeating forever (heal: {non-JSON, schema-invalid, "
         "valid, echo the error, raise, never-repeating} x {plain, error-tagging} chaperone x {repeat-last, cycle}; swarm: "
-        "{same output, fresh output, marker, lower-case marker, raise}; tools: {one tool, unknown tool, two tools, final, "
-        "raise, raising tool}); later runs sample scripts of length <=8 over wider alphabets, cycling tails, per-worker "
-        "scripts, entropy thresholds, summarizer behaviours, repeated supervise, confidence decays, engines without "
-        "tools, providers without tool support, auto_execute off; non-trivial = a run in which a loop consumed an entire "
-        "budget (was stopped by its bound, or finished exactly at it); distinct = distinct (configuration, script)")
+        "{same output, fresh output, marker, lower-case marker, raise, delegate a sub-task to the same supervisor "
+        "re-entrantly}; tools: {one tool, unknown tool, two tools, final, raise, raising tool} x final completion "
+        "{text, empty}); later runs sample scripts of length <=8 over wider alphabets, cycling tails, per-worker "
+        "scripts, entropy thresholds, summarizer behaviours, repeated supervise / heal / transcribe_with_tools on one "
+        "long-lived object, re-entrant delegation after k worker deaths, confidence decays, misfold observers (recording, "
+        "raising), Nucleus(max_retries, base_energy_cost), blank final and in-loop answers, tools returning None/'', "
+        "engines without tools, providers without tool support, auto_execute off; non-trivial = a run in which a loop "
+        "consumed an entire budget (was stopped by its bound, or finished exactly at it); distinct = distinct "
+        "(configuration, script)")
 COMPONENTS = {"real": ["operon_ai.healing.chaperone_loop.ChaperoneLoop", "operon_ai.organelles.chaperone.Chaperone",
                        "operon_ai.healing.regenerative_swarm.RegenerativeSwarm (+WorkerMemory)",
                        "operon_ai.organelles.nucleus.Nucleus.transcribe_with_tools",
@@ -55,12 +59,19 @@ ASSUMPTIONS = [
     "bounds are upper bounds: a loop that stops earlier (entropy collapse, raising peer) is not judged for that",
     "a degraded result is required to be tagged with confidence 0; that it carries no structure is not demanded",
     "pydantic is trusted for re-validation",
+    "re-entrancy: a worker that calls supervise() on its own supervisor starts a separate run with its own budget; only "
+    "workers of the outermost run delegate, at most 3 times per run (so the work stays bounded); no threads workload for "
+    "the swarm (the unchanged supervise keeps its budget in a local, re-entrant overlap already exercises shared instance state)",
+    "a raising misfold observer is the caller's own exception; counts are still judged",
 ]
 EXPECT_PROBES = ("heal_degraded_at_limit", "heal_healed_at_limit", "heal_valid_first_try", "heal_retry_got_error",
                  "heal_retry_quotes_previous_output",
                  "heal_generator_raised", "swarm_all_workers_used", "swarm_step_limit_hit", "swarm_success_at_last_step",
                  "swarm_entropy_collapse", "swarm_limit_zero", "tools_rounds_exhausted", "tools_final_at_limit",
-                 "tools_limit_zero", "tools_unknown_forever", "enumerated_case")
+                 "tools_limit_zero", "tools_unknown_forever", "enumerated_case", "swarm_reentrant_supervise",
+                 "swarm_reentrant_after_death", "swarm_reentrant_sub_succeeded", "tools_blank_final_answer",
+                 "tools_blank_final_with_nucleus_retries", "heal_second_call_on_same_loop",
+                 "tools_second_call_on_same_nucleus")
 
 MARKERS = ("SUCCESS", "SOLVED", "COMPLETE", "DONE", "FINISHED")
 SCOPE = None
@@ -102,11 +113,12 @@ def _table():
                     t.append(("heal", lim, chap, s, tail))
     for regen in range(5):
         for steps in range(5):
-            for s in _scripts("suMRd"):
+            for s in _scripts("suMRdD"):
                 t.append(("swarm", regen, steps, s))
     for lim in range(5):
         for s in _scripts("TK2FRE"):
-            t.append(("tools", lim, s))
+            for final in ("final answer", ""):
+                t.append(("tools", lim, s, final))
     derive("C18", "table-order").shuffle(t)      # so that a short batch touches all three loops
     return t
 
@@ -121,21 +133,25 @@ def coverage_extra(tier):
             "enumerated_prefix_rule": "limits 0..4 x scripts of length <=3 (see rule); runs beyond it are sampled"}
 
 
-def _heal_plan(lim, chap, script, tail, decay=0.1, prompt="make a quote", strategies=None):
+def _heal_plan(lim, chap, script, tail, decay=0.1, prompt="make a quote", strategies=None, repeat=1, misfold=None):
     return {"config": {"kind": "heal", "max_retries": lim, "chap": chap, "tail": tail, "decay": decay,
-                       "prompt": prompt, "strategies": strategies},
+                       "prompt": prompt, "strategies": strategies, "repeat": repeat, "misfold": misfold},
             "fakes": {"gen": list(script)}}
 
 
-def _swarm_plan(regen, steps, script, thr=0.5, mode="global", summ="hints", supervise=1, tail="last"):
+def _swarm_plan(regen, steps, script, thr=0.5, mode="global", summ="hints", supervise=1, tail="last", delegations=2,
+                timeout=None):
     return {"config": {"kind": "swarm", "max_regenerations": regen, "max_steps": steps, "threshold": thr,
-                       "mode": mode, "summ": summ, "supervise": supervise, "tail": tail},
+                       "mode": mode, "summ": summ, "supervise": supervise, "tail": tail, "delegations": delegations,
+                       "timeout": timeout},
             "fakes": {"worker": list(script)}}
 
 
-def _tools_plan(lim, script, tail="last", auto=True, tools="both", provider="tools"):
+def _tools_plan(lim, script, final="final answer", tail="last", auto=True, tools="both", provider="tools",
+                nuc_retries=None, energy=10, repeat=1, tool_ret=42, inloop_final="done"):
     return {"config": {"kind": "tools", "max_iterations": lim, "tail": tail, "auto": auto, "tools": tools,
-                       "provider": provider},
+                       "provider": provider, "final": final, "nuc_retries": nuc_retries, "energy": energy,
+                       "repeat": repeat, "tool_ret": tool_ret, "inloop_final": inloop_final},
             "fakes": {"provider": list(script)}}
 
 
@@ -171,14 +187,21 @@ def gen(rng, tier, i):
                           weighted(rng, [(3, "last"), (2, "cycle")]),
                           decay=rng.choice([0.1, 0.1, 0.0, 0.5, 1.0]),
                           prompt=rng.choice(["make a quote", "make a quote", "echo this: " + VALID, ""]),
-                          strategies=rng.choice([None, None, ["strict"], ["strict", "repair"]]))
+                          strategies=rng.choice([None, None, ["strict"], ["strict", "repair"]]),
+                          repeat=weighted(rng, [(3, 1), (1, 2)]),
+                          misfold=weighted(rng, [(4, None), (2, "record"), (1, "raise")]))
     if kind == "swarm":
         steps = rng.randint(0, 4)
         mode = weighted(rng, [(2, "global"), (2, "worker")])
-        shape = weighted(rng, [(3, "never"), (3, "last_step"), (2, "free")])
+        shape = weighted(rng, [(3, "never"), (3, "last_step"), (2, "free"), (3, "reentrant")])
         quiet = "suuaes"
         if shape == "free":
-            s = [rng.choice("suaeMdfR") for _ in range(rng.randint(0, 8))]
+            s = [rng.choice("suaeMdfRDP") for _ in range(rng.randint(0, 8))]
+        elif shape == "reentrant":
+            # some workers die first, then a worker hands a sub-task to its own supervisor; the sub-run mostly ends at once
+            dead = rng.randint(0, max(0, lim)) * max(1, steps)
+            s = [rng.choice(quiet) for _ in range(min(dead, 16))] + [rng.choice("DDP")]
+            s += [rng.choice("MMdsuD") for _ in range(rng.randint(0, 3))] + [rng.choice(quiet + "D")]
         elif shape == "never":
             s = [rng.choice(quiet) for _ in range(rng.randint(1, 6))]
         else:   # marker exactly at the last permitted step (of the last worker in global mode)
@@ -186,7 +209,8 @@ def gen(rng, tier, i):
             s = [rng.choice(quiet) for _ in range(max(0, total - 1))][:24] + [rng.choice("Mdf")]
         return _swarm_plan(lim, steps, s, thr=rng.choice([0.9, 0.5, 0.5, 0.0, 1.0, 0.6]), mode=mode,
                            summ=weighted(rng, [(3, "hints"), (3, "empty"), (0.5, "raise")]),
-                           supervise=weighted(rng, [(3, 1), (1, 2)]), tail=weighted(rng, [(3, "last"), (2, "cycle")]))
+                           supervise=weighted(rng, [(3, 1), (1, 2)]), tail=weighted(rng, [(3, "last"), (2, "cycle")]),
+                           delegations=rng.choice([1, 2, 2, 3]), timeout=rng.choice([None, None, 0.0, 5.0]))
     shape = weighted(rng, [(3, "forever"), (3, "final_at_limit"), (2, "free")])
     if shape == "free":
         s = [rng.choice("TK2FRE3") for _ in range(rng.randint(0, 8))]
@@ -194,9 +218,13 @@ def gen(rng, tier, i):
         s = [rng.choice("TK2E3") for _ in range(rng.randint(1, 5))]
     else:
         s = [rng.choice("TK2E3") for _ in range(max(0, lim - 1))] + ["F"]
-    return _tools_plan(lim, s, tail=weighted(rng, [(3, "last"), (2, "cycle"), (1, "final")]),
+    return _tools_plan(lim, s, final=weighted(rng, [(3, "final answer"), (2, ""), (1, " "), (1, "\n"), (1, " \t\n ")]),
+                       tail=weighted(rng, [(3, "last"), (2, "cycle"), (1, "final")]),
                        auto=rng.random() < 0.9, tools=weighted(rng, [(5, "both"), (1, "none")]),
-                       provider=weighted(rng, [(6, "tools"), (1, "plain_only")]))
+                       provider=weighted(rng, [(6, "tools"), (1, "plain_only")]),
+                       nuc_retries=rng.choice([None, None, 0, 1, 3, 5]), energy=rng.choice([10, 10, 0, 1]),
+                       repeat=weighted(rng, [(3, 1), (1, 2)]), tool_ret=rng.choice([42, 42, None, ""]),
+                       inloop_final=rng.choice(["done", "done", "", " "]))
 
 
 def simplify(plan):
@@ -208,7 +236,9 @@ def simplify(plan):
                     yield {**plan, "config": {**cfg, key: small}}
     for key, small in (("tail", "last"), ("chap", "tagged"), ("decay", 0.1), ("strategies", None),
                        ("prompt", "make a quote"), ("threshold", 0.5), ("mode", "global"), ("summ", "hints"),
-                       ("supervise", 1), ("auto", True), ("tools", "both"), ("provider", "tools")):
+                       ("supervise", 1), ("auto", True), ("tools", "both"), ("provider", "tools"), ("repeat", 1),
+                       ("misfold", None), ("delegations", 1), ("timeout", None), ("final", "final answer"),
+                       ("nuc_retries", None), ("energy", 10), ("tool_ret", 42), ("inloop_final", "done")):
         if key in cfg and cfg[key] != small:
             yield {**plan, "config": {**cfg, key: small}}
     for name, simple in (("gen", "I"), ("worker", "s"), ("provider", "T")):
@@ -239,8 +269,8 @@ def _cls(limit):
 class _RecChaperone(Chaperone):
     """The real chaperone; records the error trace of every fold, optionally making it unique per fold."""
 
-    def __init__(self, tag, strategies):
-        super().__init__(strategies=strategies, silent=quiet())
+    def __init__(self, tag, strategies, on_misfold=None):
+        super().__init__(strategies=strategies, on_misfold=on_misfold, silent=quiet())
         self.tag = tag
         self.traces = []
 
@@ -264,7 +294,15 @@ def _run_heal(plan, k, tr):
     if cfg.get("strategies"):
         from operon_ai.organelles.chaperone import FoldingStrategy
         strategies = [FoldingStrategy(s) for s in cfg["strategies"]]
-    chap = _RecChaperone(cfg["chap"] == "tagged", strategies)
+    misfolds = [0]
+
+    def on_misfold(result):              # an observer: may raise (the caller's own exception), never part of the budget
+        misfolds[0] += 1
+        if cfg.get("misfold") == "raise":
+            k.fault("collab_raise")
+            raise RuntimeError("misfold observer failed")
+
+    chap = _RecChaperone(cfg["chap"] == "tagged", strategies, on_misfold if cfg.get("misfold") else None)
     calls = []          # (error_context, number of folds made before this call)
     tokens = {}         # attempt index -> unique token carried by that attempt's raw output
 
@@ -289,6 +327,15 @@ def _run_heal(plan, k, tr):
 
     loop = ChaperoneLoop(generator=generator, chaperone=chap, schema=Quote, max_retries=lim,
                          confidence_decay=cfg["decay"], silent=quiet())
+    for rep_no in range(cfg.get("repeat", 1)):          # the loop object is long-lived: every heal() has its own budget
+        if rep_no:
+            k.probe("heal_second_call_on_same_loop")
+        calls.clear()
+        tokens.clear()
+        _heal_once(k, tr, cfg, loop, chap, calls, tokens, bound, site)
+
+
+def _heal_once(k, tr, cfg, loop, chap, calls, tokens, bound, site):
     out = call(loop.heal, cfg["prompt"], tracer=tr)
     n = len(calls)
     k.ev("heal", [out.brief()[0], n])
@@ -372,7 +419,26 @@ def _run_swarm(plan, k, tr):
     cfg, script = plan["config"], plan["fakes"]["worker"]
     regen, max_steps = cfg["max_regenerations"], cfg["max_steps"]
     wbound = regen + 1
-    state = {"spawned": 0, "gstep": 0, "workers": [], "raised": False}
+    max_deleg = cfg.get("delegations", 0)
+    state = {"gstep": 0, "raised": False, "delegations": 0}
+    frames = []          # one record per supervise() call, nested ones included
+    stack = []           # the supervise() calls in progress, innermost last
+    holder = {}
+
+    def open_frame():
+        fr = {"depth": len(stack), "spawned": 0, "workers": [], "after_deaths": len(stack[-1]["workers"]) - 1 if stack else 0}
+        frames.append(fr)
+        stack.append(fr)
+        return fr
+
+    def check_marker(res, where):
+        if bool(res.success):
+            text = res.output if isinstance(res.output, str) else ""
+            if not any(mk in text.upper() for mk in MARKERS):
+                k.violation("swarm_marker", "success_without_marker", "swarm/" + _cls(max_steps),
+                            f"success reported by {where} for output {res.output!r}")
+            return True
+        return False
 
     def step(w, task):
         w.steps += 1
@@ -387,7 +453,24 @@ def _run_swarm(plan, k, tr):
             state["raised"] = True
             raise RuntimeError("worker crashed")
         k.fault("collab_adversarial_value")
-        if sym == "u":
+        if sym in ("D", "P") and (len(stack) >= 2 or state["delegations"] >= max_deleg):
+            sym = "s"                      # only workers of the outermost run delegate, a bounded number of times
+        if sym in ("D", "P"):
+            # hierarchical swarm: the worker hands a sub-task to its own supervisor (same object, re-entrant)
+            state["delegations"] += 1
+            k.fault("collab_reenter")
+            sub = open_frame()
+            k.probe("swarm_reentrant_supervise")
+            if sub["after_deaths"] > 0:
+                k.probe("swarm_reentrant_after_death")
+            try:
+                res = holder["swarm"].supervise("sub-task of " + str(w.id))
+            finally:
+                stack.pop()
+            if check_marker(res, "a nested supervise"):
+                k.probe("swarm_reentrant_sub_succeeded")
+            outp = "delegated a sub-task" if sym == "D" else f"delegated: {res.output}"
+        elif sym == "u":
             outp = f"idea {state['gstep']}"
         elif sym == "a":
             outp = "ping" if state["gstep"] % 2 else "pong"
@@ -398,14 +481,15 @@ def _run_swarm(plan, k, tr):
         return outp
 
     def factory(name, hints):
-        state["spawned"] += 1
-        k.ev("spawn", [str(name), len(hints) if hasattr(hints, "__len__") else -1])
-        if state["spawned"] >= wbound + 2:
+        fr = stack[-1]
+        fr["spawned"] += 1
+        k.ev("spawn", [str(name), len(hints) if hasattr(hints, "__len__") else -1, fr["depth"]])
+        if fr["spawned"] >= wbound + 2:
             raise SimBudget("worker factory")
         w = _Worker(name)
         w.step_fn = step
         w.outputs = []
-        state["workers"].append(w)
+        fr["workers"].append(w)
         return w
 
     def summarizer(memory):
@@ -417,25 +501,37 @@ def _run_swarm(plan, k, tr):
             return []
         return [f"previous worker made {len(memory.task_history)} steps"]
 
+    kw = {}
+    if cfg.get("timeout") is not None:
+        from datetime import timedelta
+        kw["step_timeout"] = timedelta(seconds=cfg["timeout"])
     swarm = RegenerativeSwarm(worker_factory=factory, summarizer=summarizer, entropy_threshold=cfg["threshold"],
-                              max_steps_per_worker=max_steps, max_regenerations=regen, silent=quiet())
+                              max_steps_per_worker=max_steps, max_regenerations=regen, silent=quiet(), **kw)
+    holder["swarm"] = swarm
     for round_no in range(cfg["supervise"]):
-        state.update(spawned=0, workers=[], raised=False)
+        state.update(raised=False, delegations=0)
+        del stack[:]
+        first = len(frames)
+        outer = open_frame()
         out = call(swarm.supervise, "solve it", tracer=tr)
-        ws = state["workers"]
-        k.ev("supervise", [out.brief()[0], state["spawned"], [w.steps for w in ws]])
+        del stack[:]
+        ws = outer["workers"]
+        k.ev("supervise", [out.brief()[0], [[f["depth"], f["spawned"], [w.steps for w in f["workers"]]] for f in frames[first:]]])
         if out.kind == "step_budget":
             k.violation("swarm_workers", "no_return_within_step_budget", "swarm/" + _cls(regen))
-        if state["spawned"] > wbound:
-            k.violation("swarm_workers", "over_budget", "swarm/" + _cls(regen),
-                        f"{state['spawned']} workers spawned in one supervise, max_regenerations+1 = {wbound}"
-                        + ("; the fake gave up at bound+2" if out.kind == "fake_budget" else ""))
-        for w in ws:
+        for fr in frames[first:]:          # the bound is per supervise() call, overlapping ones included
+            if fr["spawned"] > wbound:
+                k.violation("swarm_workers", "over_budget", "swarm/" + _cls(regen),
+                            f"{fr['spawned']} workers spawned in one supervise (nesting depth {fr['depth']}, "
+                            f"{len(frames) - first - 1} nested run(s) on the same swarm), max_regenerations+1 = {wbound}"
+                            + ("; the fake gave up at bound+2" if out.kind == "fake_budget" else ""))
+                break
+        for w in [w for fr in frames[first:] for w in fr["workers"]]:
             if w.steps > max_steps:
                 k.violation("swarm_steps", "over_budget", "swarm/" + _cls(max_steps),
                             f"{w.steps} steps on {w.id}, max_steps_per_worker = {max_steps}")
                 break
-        if state["spawned"] >= wbound:
+        if outer["spawned"] >= wbound:
             k.nontrivial = True
             k.probe("swarm_all_workers_used")
         if any(w.steps >= max_steps for w in ws):
@@ -449,17 +545,12 @@ def _run_swarm(plan, k, tr):
                 return
             continue
         res = out.value
-        succ = bool(res.success)
-        k.ev("swarm_result", [succ, state["spawned"]])
-        if succ:
-            text = res.output if isinstance(res.output, str) else ""
-            if not any(mk in text.upper() for mk in MARKERS):
-                k.violation("swarm_marker", "success_without_marker", "swarm/" + _cls(max_steps),
-                            f"success reported for output {res.output!r}")
+        k.ev("swarm_result", [bool(res.success), outer["spawned"]])
+        if check_marker(res, "supervise"):
             if ws and ws[-1].steps == max_steps:
                 k.probe("swarm_success_at_last_step")
         else:
-            if any(0 < w.steps < max_steps for w in ws) and not state["raised"]:
+            if any(0 < w.steps < max_steps for w in ws) and not state["raised"] and len(frames) - first == 1:
                 k.probe("swarm_entropy_collapse")
 
 
@@ -467,8 +558,9 @@ def _run_swarm(plan, k, tr):
 class _Provider:
     name = "sim"
 
-    def __init__(self, k, script, tail, bound):
+    def __init__(self, k, script, tail, bound, final="final answer", inloop_final="done"):
         self.k, self.script, self.tail, self.bound = k, script, tail, bound
+        self.final, self.inloop_final = final, inloop_final
         self.cwt = 0
         self.plain = 0
 
@@ -483,7 +575,7 @@ class _Provider:
         self.k.ev("provider.complete", self.plain)
         if self.plain >= 1 + 2:
             raise SimBudget("plain completions")
-        return self._resp("final answer")
+        return self._resp(self.final)          # may be empty or blank: still the one final completion
 
     def _cwt(self, prompt, tools, config=None):
         self.cwt += 1
@@ -495,7 +587,7 @@ class _Provider:
             self.k.fault("collab_raise")
             raise RuntimeError("provider down")
         if sym == "F":
-            return self._resp("done"), []
+            return self._resp(self.inloop_final), []
         self.k.fault("collab_adversarial_value")
         names = {"T": ["calc"], "K": ["ghost"], "2": ["calc", "calc"], "E": ["boom"], "3": ["boom", "ghost", "calc"]}[sym]
         return self._resp(""), [ToolCall(id=f"c{self.cwt}_{j}", name=nm, arguments={"x": j}) for j, nm in enumerate(names)]
@@ -510,7 +602,8 @@ def _run_tools(plan, k, tr):
     cfg, script = plan["config"], plan["fakes"]["provider"]
     lim = cfg["max_iterations"]
     site = "tools/" + _cls(lim)
-    prov = (_ToolProvider if cfg["provider"] == "tools" else _Provider)(k, script, cfg["tail"], lim)
+    prov = (_ToolProvider if cfg["provider"] == "tools" else _Provider)(
+        k, script, cfg["tail"], lim, cfg.get("final", "final answer"), cfg.get("inloop_final", "done"))
     exec_rounds = set()
     runs = [0]
 
@@ -518,7 +611,7 @@ def _run_tools(plan, k, tr):
         runs[0] += 1
         exec_rounds.add(prov.cwt)
         k.ev("tool", ["calc", prov.cwt])
-        return 42
+        return cfg.get("tool_ret", 42)
 
     def boom(**kw):
         runs[0] += 1
@@ -531,7 +624,22 @@ def _run_tools(plan, k, tr):
     if cfg["tools"] == "both":
         m.register_function("calc", calc, "adds")
         m.register_function("boom", boom, "explodes")
-    nuc = Nucleus(provider=prov)
+    nkw = {"base_energy_cost": cfg.get("energy", 10)}
+    if cfg.get("nuc_retries") is not None:
+        nkw["max_retries"] = cfg["nuc_retries"]
+    nuc = Nucleus(provider=prov, **nkw)
+    blank_final = not str(cfg.get("final", "x")).strip()
+    for rep_no in range(cfg.get("repeat", 1)):          # the nucleus is long-lived: every call has its own budget
+        if rep_no:
+            k.probe("tools_second_call_on_same_nucleus")
+        prov.cwt = prov.plain = 0
+        exec_rounds.clear()
+        runs[0] = 0
+        if not _tools_once(k, tr, cfg, script, lim, site, prov, nuc, m, exec_rounds, runs, blank_final):
+            return
+
+
+def _tools_once(k, tr, cfg, script, lim, site, prov, nuc, m, exec_rounds, runs, blank_final):
     out = call(nuc.transcribe_with_tools, "what is 6*7?", m, None, lim, cfg["auto"], tracer=tr)
     k.ev("tools", [out.brief()[0], prov.cwt, prov.plain, runs[0]])
 
@@ -551,14 +659,19 @@ def _run_tools(plan, k, tr):
             k.nontrivial = True
             if lim == 0:
                 k.probe("tools_limit_zero")
-            elif prov.plain == 1:
+            elif prov.plain >= 1:
                 k.probe("tools_rounds_exhausted")
+                if blank_final:
+                    k.probe("tools_blank_final_answer")
+                    if getattr(nuc, "max_retries", 0) >= 1:
+                        k.probe("tools_blank_final_with_nucleus_retries")
                 if set(script[-1:]) == {"K"}:
                     k.probe("tools_unknown_forever")
             elif out.ok:
                 k.probe("tools_final_at_limit")
     else:
         k.probe("tools_fallback_to_plain")
+    return out.kind in ("ok", "raised")
 
 
 # --------------------------------------------------------------------------- run
@@ -571,7 +684,7 @@ def run(plan, k):
     k.key = [{a: b for a, b in cfg.items() if a != "enumerated"}, plan["fakes"]]
     if cfg.get("enumerated"):
         k.probe("enumerated_case")
-    with SeqTracer(k, SCOPE, 4_000) as tr:
+    with SeqTracer(k, SCOPE, 12_000) as tr:
         if cfg["kind"] == "heal":
             _run_heal(plan, k, tr)
         elif cfg["kind"] == "swarm":
